@@ -25,6 +25,9 @@ import (
 	"go/token"
 	"go/types"
 	"os"
+	"regexp"
+	"sort"
+	"strconv"
 	"strings"
 
 	"golang.org/x/tools/go/ssa"
@@ -153,14 +156,8 @@ func checkC13(ctx *Ctx, r *Report, tier string) {
 	// are float64; a number parsed with bitSize 32 is rounded to single precision first (and
 	// fails with a range error beyond it): "vertex 0.1 0.2 0.3" would not load as listed.
 	if load := ctx.ssaFunc("render", "LoadSTL"); load != nil {
-		seen := map[*ssa.Function]bool{}
-		var walk func(fn *ssa.Function)
 		np := 0
-		walk = func(fn *ssa.Function) {
-			if seen[fn] || len(fn.Blocks) == 0 {
-				return
-			}
-			seen[fn] = true
+		walk := func(fn *ssa.Function) {
 			allInstrs(fn, func(b *ssa.BasicBlock, ins ssa.Instruction) {
 				ci, ok := ins.(ssa.CallInstruction)
 				if !ok {
@@ -168,10 +165,6 @@ func checkC13(ctx *Ctx, r *Report, tier string) {
 				}
 				f := ci.Common().StaticCallee()
 				if f == nil {
-					return
-				}
-				if inModule(f) {
-					walk(f)
 					return
 				}
 				if f.String() != "strconv.ParseFloat" || len(ci.Common().Args) != 2 {
@@ -209,7 +202,18 @@ func checkC13(ctx *Ctx, r *Report, tier string) {
 				r.check("S8", fmt.Sprintf("%s|ParseFloat#%d|precision-of-the-stored-value", shortFn(fn), np), ins.Pos(), bits == want, fmt.Sprintf("bitSize %d, the value is kept as float%d", bits, want))
 			})
 		}
-		walk(load)
+		// every module function reachable from LoadSTL, function values included (a loader picked
+		// through a variable of function type is still run)
+		var scope []*ssa.Function
+		for f := range reachFrom(newFxEngine(ctx), []*ssa.Function{load}, false) {
+			if inModule(f) && len(f.Blocks) > 0 {
+				scope = append(scope, f)
+			}
+		}
+		sort.Slice(scope, func(i, j int) bool { return scope[i].Pos() < scope[j].Pos() })
+		for _, f := range scope {
+			walk(f)
+		}
 		r.floor("S8", 1)
 	} else {
 		r.undecided("S8", "LoadSTL", 0, "not found")
@@ -358,17 +362,19 @@ func checkC13(ctx *Ctx, r *Report, tier string) {
 			for n := 0; n < 3; n++ {
 				for j, c := range []string{"X", "Y", "Z"} {
 					t := m[fmt.Sprintf("[%d].%s", n, c)]
-					wantSuffix := fmt.Sprintf(".Vertex%d[%d])", n+1, j) // component j of field Vertex(n+1) of the record read
-					if t == nil || t.Op != "conv" || t.S != "float64" || !strings.HasSuffix(t.Key(), wantSuffix) {
+					// component j of vertex n is the little-endian float32 at byte 12 + 12n + 4j of
+					// the 50-byte record, however the record is declared
+					off, okOff := recordByteOffset(t, st, tri.Type())
+					if t == nil || t.Op != "conv" || t.S != "float64" || !okOff || off != 12+12*n+4*j {
 						ok = false
 						if t != nil {
-							detail += fmt.Sprintf(" vertex %d.%s = %s;", n, c, shortKey(t.Key(), 60))
+							detail += fmt.Sprintf(" vertex %d.%s = %s (byte offset %d, decoded %v);", n, c, shortKey(t.Key(), 260), off, okOff)
 						}
 					}
 				}
 			}
 		}
-		r.check("S4", "loadSTLBinary|inverse-mapping", lfn.Pos(), ok, "vertex n component j = float64(record.Vertex(n+1)[j]);"+detail)
+		r.check("S4", "loadSTLBinary|inverse-mapping", lfn.Pos(), ok, "vertex n component j = float64 of the float32 at byte 12 + 12n + 4j of the record read;"+detail)
 	} else {
 		r.undecided("S4", "loadSTLBinary", 0, "not found")
 	}
@@ -1022,4 +1028,67 @@ func ruleTextLoaderSplitsOnAnyWhitespace(ctx *Ctx, r *Report) {
 	}
 	r.check("S11", "loadSTLAscii|tokens-are-separated-by-any-white-space", root.Pos(), usesFields && bad == "", fmt.Sprintf("%d calls of package strings; tokenised with strings.Fields: %v;%s", n, usesFields, bad))
 	r.floor("S11", 1)
+}
+
+var (
+	reRecField  = regexp.MustCompile(`\.(Normal|Vertex[123])\[(\d+)\]\)$`)
+	reRecElem   = regexp.MustCompile(`sel:&o\d+\((\w+)\)\[(\d+)\]\[:\]\((\d+)\)\)$`)
+	reRecBytes  = regexp.MustCompile(`math\.Float32frombits\(call:\(encoding/binary\.littleEndian\)\.Uint32[^(]*\((?:[^,]*,)?slice:o\d+\[(\d+):(\d+)\]`)
+)
+
+// recordByteOffset: the byte offset inside the record read from the file of the float32 that the
+// term t converts. Three spellings of the record are read: the STLTriangle fields
+// (d.Vertex2[1]), an element of an array field of a local struct with the same layout
+// (d.F[3k+3:][j]), and a window of a raw byte buffer decoded with LittleEndian.Uint32 and
+// math.Float32frombits.
+func recordByteOffset(t *Term, st State, rec types.Type) (int, bool) {
+	if t == nil {
+		return 0, false
+	}
+	k := t.Key()
+	if m := reRecField.FindStringSubmatch(k); m != nil {
+		stt, _ := rec.Underlying().(*types.Struct)
+		off := 0
+		for i := 0; stt != nil && i < stt.NumFields(); i++ {
+			if stt.Field(i).Name() == m[1] {
+				j, _ := strconv.Atoi(m[2])
+				return off + 4*j, true
+			}
+			off += int(binSize(stt.Field(i).Type()))
+		}
+		return 0, false
+	}
+	if m := reRecElem.FindStringSubmatch(k); m != nil {
+		fi, _ := strconv.Atoi(m[2])
+		idx, _ := strconv.Atoi(m[3])
+		for o, v := range st.mem {
+			ag, ok := v.(*Agg)
+			if !ok || ag.T == nil || !strings.Contains(o.name, m[1]) {
+				continue
+			}
+			stt, ok := ag.T.Underlying().(*types.Struct)
+			if !ok || fi >= stt.NumFields() {
+				continue
+			}
+			arr, ok := stt.Field(fi).Type().Underlying().(*types.Array)
+			if !ok {
+				continue
+			}
+			if b, ok := arr.Elem().Underlying().(*types.Basic); !ok || b.Kind() != types.Float32 {
+				continue
+			}
+			off := 0
+			for i := 0; i < fi; i++ {
+				off += int(binSize(stt.Field(i).Type()))
+			}
+			return off + 4*idx, true
+		}
+		return 0, false
+	}
+	if m := reRecBytes.FindStringSubmatch(k); m != nil {
+		lo, _ := strconv.Atoi(m[1])
+		n, _ := strconv.Atoi(m[2]) // the evaluator prints a window as [start:length]
+		return lo, n == 4
+	}
+	return 0, false
 }
